@@ -921,6 +921,7 @@ func runC12(c *rt.Ctx) {
 
 	c12Apply(c12Cfg{rule: size.RuleEnableJSONStringForm | size.RuleEnableJSONObjectForm, maxKeys: 16, limit: 0})
 	refillRun(c, c.Pick(40000, 400000), "size")
+	guardedInputs(c, "C12", "size", []string{"10kB", "1 024 KiB", "0", "7 B", "18446744073709551615", "16 EiB", `{"value":1,"unit":"KiB"}`, `{"unit":"B","value":0,"x":[1,{"a":"b"}]}`, `"10 kB"`, `10`, `{"value":1,"unit":"KiB"`, `{"value":1,"unit":"KiB"}x`, "1e3", `"\u0031kB"`, "k", "1k", "1ki", "1kiB", "12345678", "123456789"})
 	coldStart(c, "C12", 10)
 	c12Apply(c12Cfg{rule: size.DefaultRule, maxKeys: 16, limit: 0})
 
